@@ -3,5 +3,6 @@ CONSTANTS
   Mode = "time"
   Lens <- F_Lens
   NCols = 6
+  NReal = 3
 INVARIANT Emit
 CHECK_DEADLOCK FALSE
